@@ -131,9 +131,22 @@ func init() {
 			pk := packed(true, nonce, aad, pt)
 			nonce, aad, pt = pk[0], pk[1], pk[2]
 		}
+		hugeNonce := c.has("nonce_zeros")
+		if hugeNonce { // a huge all-zero nonce (never logged byte by byte)
+			nonce = make([]byte, c.num("nonce_zeros"))
+		}
 		huge := c.has("aad_zeros")
 		if huge { // a huge all-zero additional data string (never logged byte by byte)
 			aad = make([]byte, c.num("aad_zeros"))
+		}
+		nonceLog := func(copyIt bool) B {
+			if hugeNonce {
+				return B(nil)
+			}
+			if copyIt {
+				return B(append([]byte(nil), nonce...))
+			}
+			return B(nonce)
 		}
 		aadLog := func(copyIt bool) B {
 			if huge {
@@ -153,7 +166,7 @@ func init() {
 			if snapped {
 				return
 			}
-			ev["nonce_after"], ev["aad_after"] = B(nonce), aadLog(false)
+			ev["nonce_after"], ev["aad_after"] = nonceLog(false), aadLog(false)
 			if inplace {
 				ev["in_after"] = B(pt)
 			} else {
@@ -163,7 +176,7 @@ func init() {
 		out := a.Seal(dst, nonce, in, aad)
 		ev["out"] = B(out)
 		snap := func() {
-			ev["nonce_after"], ev["aad_after"] = B(append([]byte(nil), nonce...)), aadLog(true)
+			ev["nonce_after"], ev["aad_after"] = nonceLog(true), aadLog(true)
 			if inplace {
 				ev["in_after"] = B(append([]byte(nil), pt...))
 			} else {
